@@ -2752,3 +2752,25 @@ for _patch, _what in (("benign-shuffle-matrix-in-place", "the same formula as a 
                       ("benign-arrays-keys-loop", "the array builder walks the keys of _annotations and looks the units up")):
     for _p in _ALL:
         VARIANTS.append(dict(prop=_p, id=f"r12/{_patch}", kind="B", rule="", patch=_os.path.join(_HP, f"{_patch}.diff"), note=_what))
+
+
+# =============================================================================================
+# round 13
+# =============================================================================================
+for _prop, _rule, _patch, _what in (
+        ("C15", "R-C15-3", "broken-gap-zip-swapped", "gaps over consecutive pairs of each annotator's units, the roles of the pair swapped"),
+        ("C04", "R-DEFAULTS", "broken-default-shared-component", "a default argument that builds the categorical component once at import: shared by every combination"),
+        ("C15", "R-C15-3", "broken-ground-truth-kept-as-list", "the ground-truth annotators recorded as a list: a repeated name is two entries"),
+        ("C16", "R-C16-3", "broken-ground-truth-kept-as-list", ""),
+        ("C05", "R-C05-2", "broken-ground-truth-kept-as-list", ""),
+        ("C18", "R-C18-3", "broken-segment-precision-at-import", "Segment.set_precision(3) at import: units shorter than a millisecond are zero-length for add()"),
+        ("C13", "R-C13-3", "broken-segment-precision-at-import", ""),
+        ("C19", "R-C19-2", "broken-segment-precision-at-import", "")):
+    VARIANTS.append(dict(prop=_prop, id=f"r13/{_patch}", kind="M", rule=_rule, patch=_os.path.join(_HP, f"{_patch}.diff"), note=_what))
+for _p in ("C01", "C09", "C12"):
+    VARIANTS.append(dict(prop=_p, id="r13/broken-default-shared-component", kind="M", rule="", expect_code=2, patch=_os.path.join(_HP, "broken-default-shared-component.diff"),
+                         note="reported, not judged, where the constructor is only related to what the property analyses"))
+for _patch, _what in (("benign-gap-zip-consecutive", "gaps computed per annotator over zip(units, units[1:])"),
+                      ("benign-default-named-constant", "a default value given by a module-level constant")):
+    for _p in _ALL:
+        VARIANTS.append(dict(prop=_p, id=f"r13/{_patch}", kind="B", rule="", patch=_os.path.join(_HP, f"{_patch}.diff"), note=_what))
